@@ -58,7 +58,8 @@ _SCRIPTS = {
     "slowbig": "#!/bin/sh\nexec /usr/bin/yes c09c09c09c09c09c09c09c09c09c09c09\n",  # until SIGPIPE
     "killed": "#!/bin/sh\n/bin/sleep 0.03\nkill -9 $$\n",  # dies from a signal
     "eat": "#!/bin/sh\nwhile IFS= read -r l; do :; done\nexit 0\n",
-    "head1": "#!/bin/sh\nIFS= read -r l\necho \"$l\"\nexit 0\n",
+    # (head1 too outlives the spawn sequence, see ok/fail; its producer is still writing then)
+    "head1": "#!/bin/sh\nIFS= read -r l\necho \"$l\"\n/bin/sleep 0.03\nexit 0\n",
 }
 
 _bindir = None
@@ -116,13 +117,21 @@ def _a_big(args, stdin=None, stdout=None, stderr=None):
     return 0
 
 
+def _a_slowbig(args, stdin=None, stdout=None, stderr=None):
+    """Writes until its reader goes away (the write then fails); bounded at 64 MB as a safety net."""
+    chunk = ("c09" * 13 + "\n") * 100
+    for _ in range(16000):
+        stdout.write(chunk)
+    return 0
+
+
 def _a_head1(args, stdin=None, stdout=None, stderr=None):
     line = stdin.readline() if stdin is not None else ""
     stdout.write(line)
     return 0
 
 
-ALIASES = {"ok": _a_ok, "raise": _a_raise, "exit": _a_exit, "rc1": _a_rc1, "early": _a_early, "big": _a_big, "head1": _a_head1}
+ALIASES = {"ok": _a_ok, "raise": _a_raise, "exit": _a_exit, "rc1": _a_rc1, "early": _a_early, "big": _a_big, "slowbig": _a_slowbig, "head1": _a_head1}
 
 # stage kind -> command word
 WORD = {
@@ -133,6 +142,7 @@ WORD = {
     "ext_eat": "eat",
     "ext_killed": "killed",
     "ext_head1": "head1",
+    "ext_nularg": "ok @('a\\x00b')",  # a NUL byte in argv: xonsh escapes it (_fix_null_cmd_bytes)
     "nosuch": "nosuchcmd",
     "nonexec": "noexec",
     "dir": "adir",
@@ -211,7 +221,9 @@ class _Shim:
         return getattr(self._real, name)
 
 
-POPEN_EXC = ("FileNotFoundError", "PermissionError", "EAGAIN")
+# three OSErrors with their own handling in specs._run_binary / none, and the non-OSErrors a spawn
+# really raises (ValueError: embedded null byte in env/argv; TypeError: bad argument type)
+POPEN_EXC = ("FileNotFoundError", "PermissionError", "EAGAIN", "ValueError", "TypeError")
 
 
 def _make_exc(label, variant):
@@ -236,6 +248,10 @@ def _make_exc0(label, variant):
             return FileNotFoundError(errno.ENOENT, "c09 injected: No such file or directory", "c09-injected")
         if variant == "PermissionError":
             return PermissionError(errno.EACCES, "c09 injected: Permission denied", "c09-injected")
+        if variant == "ValueError":
+            return ValueError("c09 injected: embedded null byte")
+        if variant == "TypeError":
+            return TypeError("c09 injected: expected str, bytes or os.PathLike object, not NoneType")
         return OSError(errno.EAGAIN, "c09 injected: Resource temporarily unavailable")
     if label.startswith("start"):
         return RuntimeError("can't start new thread")
@@ -495,7 +511,8 @@ def quiesce():
 
 
 def ctrl_c_probe():
-    """A self-sent SIGINT must surface as KeyboardInterrupt in the main thread promptly."""
+    """A self-sent SIGINT must surface as KeyboardInterrupt in the main thread promptly (a stale
+    handler may swallow it, or blow up with something else: both are observations)."""
     try:
         os.kill(os.getpid(), signal.SIGINT)
         t_end = time.time() + 0.5
@@ -504,6 +521,10 @@ def ctrl_c_probe():
         return "no-KeyboardInterrupt"
     except KeyboardInterrupt:
         return "KeyboardInterrupt"
+    except _CaseTimeout:
+        raise
+    except BaseException as e:  # noqa: BLE001
+        return "raised-" + type(e).__name__
 
 
 # ------------------------------------------------------------------ the child
@@ -614,6 +635,10 @@ def _child(case, resfd, slave=None):
                 raise RuntimeError("case process does not own its controlling terminal")
         if case.get("flag") == "cmd_raise":
             XSH.env["XONSH_SUBPROC_CMD_RAISE_ERROR"] = True
+        if case.get("flag") == "nulenv":
+            # an exported variable with a NUL byte: every spawn fails with ValueError('embedded
+            # null byte'), a NON-OSError, from inside subprocess.Popen (set before the baseline)
+            XSH.env["C09_NUL"] = "a\x00b"
         install_aliases(XSH)
         inj = Injector(case.get("fault"))
         if case.get("shims", True):
